@@ -132,6 +132,18 @@ CHECKS = {
         note="Trusted: ideal partial-tag AEAD, IntFlag constructors as identity, recorders for BleDiscovery/cache/task creation, z3. "
              "BleController.async_find never registering its future is an observation no check here decides.",
         design="DESIGN.md section 5 C19"),
+    "C10": dict(
+        text="PARTIAL: (a) the back-off update expression is lifted from HomeKitConnection._reconnect's AST into z3 reals and the one-step "
+             "law (next <= 60, next >= 0.75, grows until the cap, cap within 12 steps) is proved for every interval in [0.5, 60]; "
+             "(b) the real _reconnect coroutine is hand-driven for K attempts (quick 3, thorough 4) over every combination of outcome "
+             "selectors {refused, timeout, peer close, HTTP 4xx, wrong pairing id marking / not marking the address, bad signature, "
+             "authentication error, unexpected exception, success} x host lists of 1..3 x wake-up / close-request flags, checked "
+             "against the back-off law, the immediate-retry rule and the termination rule; (c) connector guards from an arbitrary "
+             "flag state; (d) _get_connect_hosts over every exclusion subset. NOT decided: single-connector under truly concurrent "
+             "triggers, ensure_connection's shield and the caller's bounded wait (need a running loop).",
+        note="In (b)-(d) all symbolic variables are discrete selectors: the guarantee equals bounded exhaustive exploration of fault "
+             "histories of the real coroutine; _connect_once, asyncio.sleep, interrupt, create_future, async_create_task are stubs.",
+        design="DESIGN.md section 5 C10"),
 }
 
 NOT_APPLICABLE = {
